@@ -69,6 +69,12 @@ def main():
         corrupt("resource note: forward removed", lambda r: r["e"] == "note" and r.get("kind") == "rsFwd" and r["ev"] == "custom", drop)
         corrupt("hook removed: all reaccess notes", lambda r: r["e"] == "note" and r.get("kind") == "reaccess",
                 lambda rs, i: [x for x in rs if not (x["e"] == "note" and x.get("kind") == "reaccess")])
+        corrupt("ready note: visit count off by one", lambda r: r["e"] == "note" and r.get("kind") == "rdyOn" and not r["first"], setf("loading", lambda n: n + 1))
+        corrupt("ready note: parked flag flipped", lambda r: r["e"] == "note" and r.get("kind") == "rdyOn", setf("wait", lambda b: not b))
+        corrupt("ready note: reference hidden from collect", lambda r: r["e"] == "note" and r.get("kind") == "rdyOn" and not r["first"], drop)
+        corrupt("ready note: callback never fires", lambda r: r["e"] == "note" and r.get("kind") == "rdyFire", drop)
+        corrupt("ready note: callback fires twice", lambda r: r["e"] == "note" and r.get("kind") == "rdyFire", lambda rs, i: rs[:i] + [rs[i]] + rs[i:])
+        corrupt("ready note: load completion dropped", lambda r: r["e"] == "note" and r.get("kind") == "subLoaded", drop)
         print("BINDING-SELFTEST", "ok" if ok else "WEAK")
         return 0 if ok else 1
     finally:
